@@ -75,7 +75,37 @@ CHECKS.update({
     design="5/C17", technique="Coq proof (finite binary64 sweep + injectivity of decimal rendering) + differential correspondence via the CLI",
     note="Print Assumptions lists only the kernel's PrimFloat/PrimInt63 primitives for the theorems that compute with binary64."),
 })
-PENDING = {}
+CHECKS.update({
+ "C02": dict(
+    text="Theorem (any instance): the transition lists on which the reward loop runs are, state by state, the rows of the conditioned game "
+         "built from the reported strategies and probabilities (restriction of Player 1, dead successors removed, survivors renormalised), "
+         "emptied only for non-Player-1 states not reachable from the initial state; emptied states are worth 0. The numeric half is checked in "
+         "its Bellman-consistency form on every run and against an exact max-min oracle on guarded families; the error form is false (K1-C02).",
+    design="5/C02", technique="Coq proof (composition of pruning/frame lemmas) + bit-exact differential correspondence + exact-oracle search"),
+ "C10": dict(
+    text="Theorems over an explicit store of list objects (alias / rebind / remove-in-place): solving never writes to a location the caller can see "
+         "(whatever the outcome), the store-level pipeline refines the pure one, and any sequence of solves on one description returns exactly the "
+         "pure results; with the pinned in-place scan figure 5.5 is damaged and the second solve fails (refutation). Correspondence on solve "
+         "sequences incl. object identity and the predicted store contents.",
+    design="5/C10", technique="Coq proof (frame/refinement over a heap model of list aliasing) + differential correspondence on solve sequences"),
+ "C12": dict(
+    text="Theorems: under independent names each game's two entries equal those of running it alone (any position, any other games), failure "
+         "protocol messages, all games present, keys in run order; name collision refuted (K2). Correspondence of run_games entries with the model and "
+         "with solo runs over dictionaries of well-formed, malformed and unsolvable games in all orders.",
+    design="5/C12", technique="Coq proof (association-list model of dict semantics on top of the heap model) + differential correspondence"),
+ "C13": dict(
+    text="Theorems: the backward search, paths, the Bellman operator and every finite-horizon value are equivariant under renaming states "
+         "(any bijection) and reordering transitions (any permutation of each row). End-to-end equality within tolerance is not a theorem "
+         "(sweep order; K1-C13) and is asserted by the metamorphic check: implementation on g vs on renamed g, exact on the exact family.",
+    design="5/C13", technique="Coq proof (equivariance of search and Bellman operator) + metamorphic differential testing of the implementation"),
+ "C14": dict(
+    text="Theorems (any instance): one reward step makes both diagnostics follow the successor picked by the reward step (Player 1/2), "
+         "weighted sums for probabilistic states, Player 2's reward diagnostic ranges over its 6-digit reachability strategy, seeded from "
+         "reachability. Correspondence bit-exact on both diagnostic vectors; induced-chain oracle on guarded families.",
+    design="5/C14", technique="Coq proof (fold invariants of the reward step) + bit-exact differential correspondence + induced-chain oracle"),
+})
+PENDING = {"C08": "helper still building the Roborta bisimulation (coq/Spec/Roborta.v); not claimed until its check passes",
+           "C11": "helper still building the board-generator model (coq/Model/Board.v); not claimed until its check passes"}
 def main():
     props = [json.loads(l) for l in open(os.path.join(VERIF, "properties.jsonl"))]
     checks, na = [], []
